@@ -1,5 +1,5 @@
 -- Reproduction through the library API (tools/api_runner) of the defects repaired by the "fix:" commits 3b5d38c3
--- "a multi-row UPDATE could give two rows the same key; ON DUPLICATE KEY UPDATE skipped the constraints" and 144232c3
+-- "a multi-row UPDATE could give two rows the same key; ON DUPLICATE KEY UPDATE skipped the constraints" and 442858f2
 -- "an UPDATE whose later row the table rejects left the earlier rows changed" (executor update/mod.rs, insert/duplicate_key_update.rs).
 -- Run: /verif/.cache/runner-target/debug/runner findings/fixed_c10_update_duplicates_and_odku.sql
 -- BEFORE: `UPDATE t SET u = 7 WHERE id < 3` and `UPDATE t SET id = 9 WHERE v > 10` succeeded and left two rows with u = 7 / id = 9 (UNIQUE, PRIMARY KEY;
